@@ -105,6 +105,11 @@ M = [
  ("c18-no-inner-reset", "C18", "internal/hmac/pool.go", "\th.outer.Reset()\n\th.inner.Reset()\n\tblocksize", "\th.outer.Reset()\n\tblocksize"),
  # C20 (replacement for the equivalent grow mutant)
  ("c20-xor-getter-allocs-ip", "C20", "xoraddr.go", "\ta.IP = a.IP[:ipLen]\n\tfor i := range a.IP {\n\t\ta.IP[i] = 0\n\t}\n\tif err := CheckOverflow", "\ta.IP = make(net.IP, ipLen)\n\tif err := CheckOverflow"),
+ # debug build tag only (checks_debug.go): visible only to the -tags debug phases
+ ("dbg-overflow-lt", "C09", "checks_debug.go", "if got <= max {", "if got < max {"),
+ ("dbg-checksize-ge", "C05", "checks_debug.go", "func CheckSize(a AttrType, got, expected int) error {\n\tif got == expected {", "func CheckSize(a AttrType, got, expected int) error {\n\tif got >= expected {"),
+ ("dbg-hmac-prefix", "C04", "checks_debug.go", "if hmac.Equal(got, expected) {", "if len(got) > 0 && len(got) <= len(expected) && hmac.Equal(got, expected[:len(got)]) {"),
+ ("dbg-fingerprint-lowbyte", "C05", "checks_debug.go", "func checkFingerprint(got, expected uint32) error {\n\tif got == expected {", "func checkFingerprint(got, expected uint32) error {\n\tif uint8(got) == uint8(expected) {"),
 ]
 
 def sh(cmd, cwd=None, timeout=3600):
